@@ -15,7 +15,9 @@ import (
 	"strings"
 	"time"
 
+	"massnet.org/mass-wallet/masswallet"
 	mwdb "massnet.org/mass-wallet/masswallet/db"
+	"massnet.org/mass-wallet/masswallet/keystore"
 	"massnet.org/mass-wallet/masswallet/vshim"
 	"vh/dbseam"
 	"vh/env"
@@ -30,21 +32,40 @@ type Scn struct {
 	Resume bool   `json:"resume"` // the task was accepted before a restart and is resumed at start-up
 	Tips   int    `json:"tips"`   // tips the node announces concurrently
 	Stop   bool   `json:"stop"`   // a stop request is issued concurrently
+	// Batch > 0: one rescan batch of an import covers Batch heights (hook variable read by the
+	// source overlay), so the import of this scenario takes several batches and is queued
+	// again by the worker between them. Such scenarios carry "[batch]" in their name.
+	Batch uint64 `json:"batch"`
+	// Extra: more tasks the API thread submits after the first one (imports of two unfunded
+	// wallets, then the removal of wallet B) - as many as the wallet accepts.
+	Extra int `json:"extra"`
+	// Fast: locks that can be taken at once are not scheduling points; preemptions happen at
+	// channel operations, wait groups and blocking locks only ("[fast]" in the name). Used
+	// with a higher preemption bound on the longer scenarios. "[deep]": thorough tier only.
+	Fast bool `json:"fast"`
 }
 
 // Scenarios is the scenario list (histories x stop placement).
 var Scenarios = []Scn{
-	{"remove+2tips+stop", "remove", false, 2, true},
-	{"remove+stop", "remove", false, 0, true},
-	{"import+2tips+stop", "import", false, 2, true},
-	{"import+stop", "import", false, 0, true},
-	{"resume-remove+stop", "remove", true, 0, true},
-	{"resume-import+1tip+stop", "import", true, 1, true},
-	{"2tips+stop", "none", false, 2, true},
-	{"remove+2tips", "remove", false, 2, false},
-	{"import+2tips", "import", false, 2, false},
-	{"resume-remove+1tip", "remove", true, 1, false},
-	{"resume-import+1tip", "import", true, 1, false},
+	{"remove+2tips+stop", "remove", false, 2, true, 0, 0, false},
+	{"remove+stop", "remove", false, 0, true, 0, 0, false},
+	{"import+2tips+stop", "import", false, 2, true, 0, 0, false},
+	{"import+stop", "import", false, 0, true, 0, 0, false},
+	{"resume-remove+stop", "remove", true, 0, true, 0, 0, false},
+	{"resume-import+1tip+stop", "import", true, 1, true, 0, 0, false},
+	{"2tips+stop", "none", false, 2, true, 0, 0, false},
+	{"remove+2tips", "remove", false, 2, false, 0, 0, false},
+	{"import+2tips", "import", false, 2, false, 0, 0, false},
+	{"resume-remove+1tip", "remove", true, 1, false, 0, 0, false},
+	{"resume-import+1tip", "import", true, 1, false, 0, 0, false},
+	// multi-batch imports (stop between two steps of an import; queue pressure while a task
+	// that is queued again after every batch is running)
+	{"import3+stop [batch]", "import", false, 0, true, 1, 0, false},
+	{"import3+1tip [batch]", "import", false, 1, false, 1, 0, false},
+	{"import3+1tip+stop [batch][fast][deep]", "import", false, 1, true, 1, 0, true},
+	{"import3+3tasks [batch][fast]", "import", false, 0, false, 1, 3, true},
+	{"import3+3tasks+stop [batch][fast][deep]", "import", false, 0, true, 1, 3, true},
+	{"resume-import3+1tip+stop [batch][fast][deep]", "import", true, 1, true, 1, 0, true},
 }
 
 type Opts struct {
@@ -67,6 +88,12 @@ type Out struct {
 
 var seq int
 
+// unfunded wallets imported to put pressure on the task queue (valid BIP-39 sentences)
+var extraMnemonics = []string{
+	"legal winner thank year wave sausage worth useful legal winner thank yellow",
+	"letter advice cage absurd amount doctor acoustic avoid letter advice cage above",
+}
+
 // runOnce builds a fresh world, runs the scenario under the prefix and evaluates the oracle.
 func runOnce(sc Scn, prefix []int) (*vshim.Result, *sched.Exec, error) {
 	seq++
@@ -82,6 +109,11 @@ func runOnce(sc Scn, prefix []int) (*vshim.Result, *sched.Exec, error) {
 		return nil, nil, err
 	}
 	w.UseOracleChain()
+	masswallet.VerifImportBatch = 1000
+	if sc.Batch > 0 {
+		masswallet.VerifImportBatch = sc.Batch
+	}
+	defer func() { masswallet.VerifImportBatch = 1000 }()
 	// history before the explored part (direct calls, scheduler inactive)
 	setup := []string{"x.ab", "d", "x.pc0", "d", "x.a2b", "d"}
 	for _, ev := range setup {
@@ -120,13 +152,14 @@ func runOnce(sc Scn, prefix []int) (*vshim.Result, *sched.Exec, error) {
 	}
 	x := &sched.Exec{}
 	var apiErr, startErr error
+	var extraErrs []string
 	stopReturned := false
 	idleOK := func(name, pend string) bool {
 		// handle and worker legitimately wait for ever in their top-level select
 		return !sc.Stop && ((name == "handle" && strings.HasPrefix(pend, "select(select[h.quit,h.sigSuspend,h.queueBlock,h.queueMsgTx]")) ||
 			(name == "worker" && strings.HasPrefix(pend, "select(select[h.quit,h.taskChan.C]")))
 	}
-	r := vshim.Run(vshim.Options{Prefix: prefix, Horizon: 4000, IdleOK: idleOK}, func() {
+	r := vshim.Run(vshim.Options{Prefix: prefix, Horizon: 4000, IdleOK: idleOK, FastLocks: sc.Fast}, func() {
 		vshim.Go("main", func() {
 			startErr = w.I.W.VerifHandlerStart()
 			if startErr != nil {
@@ -148,6 +181,16 @@ func runOnce(sc Scn, prefix []int) (*vshim.Result, *sched.Exec, error) {
 						apiErr = w.I.W.RemoveWallet(w.Wallets["B"].ID, world.PassB)
 					} else {
 						apiErr = w.ImportC(0)
+					}
+					for k := 0; k < sc.Extra; k++ {
+						var err error
+						if k < len(extraMnemonics) {
+							_, err = w.I.W.ImportWalletWithMnemonic(&keystore.WalletParams{Mnemonic: extraMnemonics[k],
+								PrivatePassphrase: []byte("privpassX7"), Remarks: "X", AddressGapLimit: w.Opt.Gap})
+						} else {
+							err = w.I.W.RemoveWallet(w.Wallets["B"].ID, world.PassB)
+						}
+						extraErrs = append(extraErrs, fmt.Sprint(err))
 					}
 				})
 			}
@@ -210,6 +253,19 @@ func runOnce(sc Scn, prefix []int) (*vshim.Result, *sched.Exec, error) {
 				}
 			}
 		}
+		// every accepted task finished: no wallet is left importing or marked for removal
+		if wss, err := w.I.W.Wallets(); err != nil {
+			x.Viol = append(x.Viol, "quiescent but Wallets() fails: "+err.Error())
+		} else {
+			for _, ws := range wss {
+				if ws.Status.IsRemoved() {
+					x.Viol = append(x.Viol, "quiescent but an accepted removal did not finish: a wallet is still marked for removal")
+				} else if !ws.Status.Ready() {
+					x.Viol = append(x.Viol, fmt.Sprintf("quiescent but an accepted import did not finish: a wallet (%q) is still importing at height %d", ws.Remarks, ws.Status.SyncedHeight))
+				}
+			}
+		}
+		out["extra_errs"] = extraErrs
 		if len(x.Viol) == 0 {
 			if d, _ := w.CheckLedger(); len(d) > 0 {
 				for _, s := range d {
